@@ -9,6 +9,9 @@ Decides:
  H hide            ParseHide::eval brackets the inner eval with swap_comps_with on one local stash that is never handed back:
                    hidden items are never offered.  The same bracket in group_help / complete / complete_shell hands the stash
                    back (their items stay visible).  Every return after the inner eval passes the restoring swap (also on failure).
+ M marker first    State::construct reads the completion revision only after the items were scanned for the marker (a snapshot
+                   taken before the scan is right for set_comp() and wrong for requests made through the marker item).
+ V verbatim        arg_matches / cmd_matches compare the typed word as it is (no trimming / case folding).
  L last item       `index + 1 == len` in the keep/drop decision between alternatives compares the index with the length of the
                    collection it enumerates (not with the number of remaining items).
  E hint emission   every failing exit of the four primitives (flag, argument, positional, command) is preceded by a call into
@@ -27,7 +30,7 @@ import scopes, c15, c06
 LEVEL = 'other'
 EXPLANATION = __doc__
 ASSUMPTIONS = ['completion mode is entered only through Args::set_comp or the --bpaf-complete-rev marker']
-FLOORS = {'P.precedence': 5, 'N.no-late-none': 2, 'H.hide': 9, 'E.hints': 9, 'W.wrappers': 4, 'D.dispatch': 5, 'L.last-item': 1}
+FLOORS = {'P.precedence': 6, 'N.no-late-none': 2, 'H.hide': 9, 'E.hints': 11, 'W.wrappers': 4, 'D.dispatch': 5, 'L.last-item': 1}
 
 def run(ctx):
     cfgs = ['all', 'ac'] if ctx.tier == 'quick' else ['all', 'ac', 'autocomplete,docgen', 'autocomplete,dull-color']
@@ -36,6 +39,8 @@ def run(ctx):
         fs = ctx.facts(cfg)
         ctx.guard(precedence, ctx, cfg, fs)
         ctx.guard(no_late_none, ctx, cfg, fs)
+        ctx.guard(marker_then_decide, ctx, cfg, fs)
+        ctx.guard(verbatim_matching, ctx, cfg, fs)
         ctx.guard(last_index_tests, ctx, cfg, fs)
         ctx.guard(hide, ctx, cfg, fs)
         ctx.guard(hints, ctx, cfg, fs)
@@ -106,6 +111,38 @@ def last_index_tests(ctx, cfg, fs):
                            '%s: `index + 1 == len` compares an index into %s with the length of %s (%s)' % (short(b.path), coll, of, sorted({short(q.call.name) for q in lens})), where=b.where(sw.b), cfg=cfg)
     if n == 0:
         raise Broken('no "last element" test found in the alternative / completion code')
+
+def marker_then_decide(ctx, cfg, fs):
+    """whether the run is a completion request is known only AFTER the items were scanned for the `--bpaf-complete-rev=N`
+    marker (shell stubs pass it as an item).  Every read of the scanner's revision in State::construct that steers
+    tokenization (e.g. keeping a trailing `--` visible) must therefore come after the scan loop, not be a snapshot
+    taken before it."""
+    b = ctx.look(fs.one(r'^args::inner::State::construct$'))
+    scans = [c for c in b.calls() if c.is_(r'ArgScanner.*check_next$')]
+    if not scans:
+        raise Broken('State::construct: no call of ArgScanner::check_next')
+    reads = []
+    for i, k, st in b.stmts():
+        if st['k'] != 'assign': continue
+        rv = st['rv']
+        pls = [rv.get('place')] if rv['k'] in ('ref', 'discr') else ([op_place(rv['op'])] if rv['k'] == 'use' and op_place(rv.get('op')) else [])
+        for pl in pls:
+            if pl and 'revision' in place_fields(pl) and b.local_ty(pl[0]).startswith('complete_run::ArgScanner'):
+                reads.append(i)
+    early = [i for i in reads if not any(b.reaches(c.bb, [i]) for c in scans)]
+    ctx.ob('P.precedence', 'construct:revision-read-after-marker-scan', bool(reads) and not early,
+           'State::construct reads the scanner revision at %d place(s), %d of them before any item was scanned for the completion marker' % (len(reads), len(early)), where=b.where(early[0]) if early else b.where(), cfg=cfg)
+
+VERBATIM_MATCHERS = [r'^complete_gen::arg_matches$', r'^complete_gen::cmd_matches$']
+NORMALISING = [r'str::<impl str>::(trim\w*|to_lowercase|to_uppercase|to_ascii_lowercase|to_ascii_uppercase|replace\w*|eq_ignore_ascii_case)$', r'char::methods::<impl char>::(to_ascii_\w+|to_lowercase|to_uppercase|eq_ignore_ascii_case)$']
+
+def verbatim_matching(ctx, cfg, fs):
+    """a candidate must extend exactly what was typed: the functions that compare the typed word with names use prefix /
+    equality tests on the word as it is - no trimming, case folding or replacement on either side"""
+    for rx in VERBATIM_MATCHERS:
+        b = ctx.look(fs.one(rx))
+        hits = sorted({short(c.name) for x in fs.family(b) for c in x.calls() if c.is_(*NORMALISING)})
+        ctx.ob('E.hints', '%s:compares-typed-word-verbatim' % short(b.path), not hits, '%s compares the typed word as it is (normalising calls: %s)' % (short(b.path), hits or 'none'), where=b.where(), cfg=cfg)
 
 def no_late_none(ctx, cfg, fs):
     b = ctx.look(fs.one(r'complete_gen::.*check_complete$'))
